@@ -224,17 +224,47 @@ func round6(w *World, r *Report) {
 					fs[f] = true
 				}
 			}
+			o0, v0 := len(r.Obls), len(r.Viol)
 			eng := newEngine(w, r, "R19.10", fs)
+			params := map[string][]string{}
 			for _, f := range sortedFuncs(w, fs) {
 				eng.idx(f)
 				eng.taObls(f)
 				eng.divObls(f)
+				for _, p := range f.Params {
+					params[w.FuncName(f)] = append(params[w.FuncName(f)], p.Name())
+				}
 			}
+			// what is claimed is about the POSTED DOCUMENT: index operations on what the function was handed
+			// (the decoded document and what hangs off it). Indexing of lists the handler builds itself is
+			// the bounds engine's general business (C01), not this rule's.
+			onInput := func(fn, construct string) bool {
+				for _, p := range params[fn] {
+					if p != "" && strings.Contains(construct, p+".") || strings.Contains(construct, p+"[") {
+						return true
+					}
+				}
+				return !strings.Contains(construct, "[") // assertions, divisions
+			}
+			kept := r.Obls[:o0:o0]
+			for _, o := range r.Obls[o0:] {
+				if onInput(o.Func, o.Construct) {
+					kept = append(kept, o)
+				}
+			}
+			r.Obls = kept
+			viol := r.Viol[:v0:v0]
+			for _, v := range r.Viol[v0:] {
+				if onInput(v.Func, v.Construct) {
+					viol = append(viol, v)
+				}
+			}
+			r.Viol = viol
 			r.floor("R19.10 functions of the REST handler", len(fs), 3)
 		}
 		ruleNoRelock(w, r, "R19.9")
 		ruleSliceMeterJoinCount(w, r, "C19", "R19.8")
-		r.Explanation += " R19.8 every caller of addSliceMeter joins as many completions as it starts workers;"
+		r.Explanation += " R19.8 every caller of addSliceMeter joins as many completions as it starts workers; R19.10 index / assertion / division obligations on what the REST handler's functions are handed (the decoded document);"
 	case "C05":
 		ruleGaugeCountedBeforeAbort(w, r, "C05", "R05.24")
 		ruleDeleteGetsTheRules(w, r, "C05", "R05.25")
